@@ -153,7 +153,9 @@ func (ch *channel) ReadFcall(ctx context.Context, fcall *Fcall) error {
 
 	// clear out the fcall
 	*fcall = Fcall{}
-	if err := ch.codec.Unmarshal(ch.rdbuf[:n], fcall); err != nil {
+	// n counts the 4-byte size field, which is not in rdbuf: the body is
+	// n-4 bytes (anything beyond is left over from earlier frames).
+	if err := ch.codec.Unmarshal(ch.rdbuf[:n-channelMessageHeaderSize], fcall); err != nil {
 		return err
 	}
 
